@@ -15,7 +15,7 @@ RULE = ("files = interleavings of directive/comment/blank/feature lines: all seq
         "##FASTA or bare '>' section holding ##-looking and tab-separated lines, LF and CRLF, path, gzip path and from_string, "
         "inferred and supplied dialect; non-trivial = a directive sits after feature number checklines+1 (beyond the "
         "inspection window) or a FASTA section is present; distinct by (file text, checklines, input form)")
-REQUIRED = ["DataIterator.directives compared", "db.directives compared", "reopened directives compared",
+REQUIRED = ["pairs of iterators with overlapping lifetimes", "DataIterator.directives compared", "db.directives compared", "reopened directives compared",
             "directives beyond the window observed", "files with FASTA section"]
 ASSUMPTIONS = [
     "the FASTA section starts at a line that is exactly '##FASTA' or begins with '>'",
@@ -50,7 +50,9 @@ def build(kinds, fasta=None):
             lines.append(["##d%d sequence-region chr1 1 %d" % (i, 1000 + i), "###", "##dir %d" % i, "##", "## spaced  %d " % i,
                           "##d%d sequence-region chr1 1 %d" % (i, 1000 + i),
                           # characters that str.splitlines() takes for line ends although file reading does not
-                          "##note%d form\x0cfeed\u2028sep\x85nel\x1cfs end" % i][(i + len(kinds)) % 7])
+                          "##note%d form\x0cfeed\u2028sep\x85nel\x1cfs end" % i,
+                          # the marker itself occurring again inside the text; banner lines
+                          "##note %d: see the ##FASTA line ## and #this" % i, "####################", "#######"][(i + len(kinds)) % 10])
         elif k == "C":
             # comment shapes: ordinary, '#!' pragma-style, bare '#', '# ##'
             lines.append(["#comment %d\twith\ttabs ##not-a-directive" % i, "#!genome-build GRCh%d" % i, "#", "# ## not a directive",
@@ -75,6 +77,8 @@ def execute(ctx, case):
     import gffutils
     from gffutils.iterators import DataIterator
 
+    if case["kind"] == "overlapping":
+        return overlapping(ctx, case)
     lines = case["lines"]
     ck = case["checklines"]
     eol = case.get("eol", "\n")
@@ -158,6 +162,46 @@ def execute(ctx, case):
             ctx.violation(case, v)
 
 
+def overlapping(ctx, case):
+    """Two iterators over different files whose lifetimes overlap: each keeps its own directives."""
+    from gffutils.iterators import DataIterator
+
+    la, lb = case["lines_a"], case["lines_b"]
+    pa, pb = ctx.tmp(".a.gff"), ctx.tmp(".b.gff")
+    try:
+        for p, ls in ((pa, la), (pb, lb)):
+            with open(p, "w", encoding="utf-8", newline="") as fh:
+                fh.write("\n".join(ls) + "\n")
+        ea, na = classify(la)
+        eb, nb = classify(lb)
+        a = DataIterator(pa, checklines=case["checklines"])
+        b = DataIterator(pb, checklines=case["checklines"])          # built before a was read
+        if case["how"] == "lockstep":
+            ia, ib = iter(a), iter(b)
+            fa, fb = [], []
+            while True:
+                x = next(ia, None)
+                y = next(ib, None)
+                if x is None and y is None:
+                    break
+                if x is not None:
+                    fa.append(x)
+                if y is not None:
+                    fb.append(y)
+        else:
+            fb = list(b)
+            fa = list(a)
+        ctx.mon("pairs of iterators with overlapping lifetimes")
+        if list(a.directives) != ea or list(b.directives) != eb or len(fa) != na or len(fb) != nb:
+            ctx.violation(case, {"why": "two DataIterators alive at the same time do not each keep their own directives/features",
+                                 "a": [list(a.directives), len(fa)], "expected_a": [ea, na],
+                                 "b": [list(b.directives), len(fb)], "expected_b": [eb, nb]})
+    finally:
+        for p in (pa, pb):
+            if os.path.exists(p):
+                os.unlink(p)
+
+
 def directives_beyond_window(lines, ck):
     """Number of directives located after feature number ck+1 (and before any FASTA section)."""
     nf = 0
@@ -200,6 +244,13 @@ def run(ctx):
                     sample = case
     ctx.case_enum(n, nt, sample=sample)
     ctx.mon("enumerated interleavings x checklines", n)
+    for _ in range(ctx.budget(120, 4000)):
+        ka = [rng.choice("DDCBF") for _ in range(rng.randrange(2, 9))] + ["F"]
+        kb = [rng.choice("DCBFF") for _ in range(rng.randrange(2, 9))] + ["F"]
+        case = {"kind": "overlapping", "lines_a": build(ka), "lines_b": build(kb + ["D"]), "checklines": rng.choice([0, 1, 10]),
+                "how": rng.choice(["lockstep", "b-first"])}
+        execute(ctx, case)
+        ctx.case(("overlapping", case["lines_a"], case["lines_b"], case["checklines"], case["how"]), True, cls="overlapping iterators")
     if ctx.tier == "thorough" and ctx.shard == 0:
         import sqlite3
         try:
